@@ -122,8 +122,8 @@ func (q *Queue[T]) doAdd(item T) error {
 		q.nempty.Signal()
 	}
 
-	// for the iterator, signal for any updates
-	q.nupdates.Signal()
+	// for the iterators (there may be several,) signal for any updates
+	q.nupdates.Broadcast()
 
 	return nil
 }
@@ -223,13 +223,21 @@ func (q *Queue[T]) waitForNew(ctx context.Context) error {
 	q.mu.Lock()
 	defer q.mu.Unlock()
 
+	return q.unsafeWaitForNew(ctx, q.back)
+}
+
+// caller must hold the lock. Blocks until the newest entry of the
+// queue is no longer head (e.g. an item was added after it, or it
+// was removed,) the queue is closed, or the context is canceled. The
+// caller must determine head while holding the lock (and not release
+// it before calling,) otherwise an Add can slip in unobserved.
+func (q *Queue[T]) unsafeWaitForNew(ctx context.Context, head *entry[T]) error {
 	// when the function returns wake all other waiters.
 	ctx, cancel := context.WithCancel(ctx)
 	go func() { <-ctx.Done(); q.mu.Lock(); defer q.mu.Unlock(); q.nupdates.Broadcast() }()
 	defer cancel()
 
-	head := q.back
-	for head == q.back && q.back.link != q.front {
+	for head == q.back {
 		if q.closed {
 			return ErrQueueClosed
 		}
@@ -356,39 +364,38 @@ func (q *Queue[T]) Distributor() Distributor[T] {
 func (q *Queue[T]) Producer() fun.Producer[T] {
 	var next *entry[T]
 	return func(ctx context.Context) (o T, _ error) {
+		q.mu.Lock()
+		defer q.mu.Unlock()
+
 		if next == nil {
-			q.mu.Lock()
 			next = q.front
-			q.mu.Unlock()
 		}
 
-		q.mu.Lock()
 		if next.link == q.front {
-			q.mu.Unlock()
 			return o, io.EOF
 		}
 
-		if next.link != nil {
-			next = next.link
-			q.mu.Unlock()
-		} else if next.link == nil {
+		for next.link == nil {
+			if next != q.back {
+				// the entry under the cursor was removed while
+				// it was the newest one: everything that is in
+				// the queue now was added after it.
+				next = q.front
+				continue
+			}
+
 			if q.closed {
-				q.mu.Unlock()
 				return o, io.EOF
 			}
 
-			q.mu.Unlock()
-			if err := q.waitForNew(ctx); err != nil {
+			// next is the newest entry: wait (without releasing
+			// the lock in between) until that changes.
+			if err := q.unsafeWaitForNew(ctx, next); err != nil {
 				return o, err
 			}
-
-			q.mu.Lock()
-			if next.link != q.front {
-				next = next.link
-			}
-			q.mu.Unlock()
 		}
 
+		next = next.link
 		return next.item, nil
 	}
 }
